@@ -7,6 +7,10 @@
 //! Version 3: drop accounting (`val::Tracked`, `val::track`; applied in `worker::run_line` and `hist`), history
 //! cases (`hist`, served by the `str`/`slice` workers), the `tree` input kind with `NestedIn` (`input::TT`,
 //! `build::nested_tree`). The thread cases live in `workers/src/threads.rs` (statically typed grammars).
+//!
+//! Version 4: the grapheme kinds `graphemes` (`&chumsky::text::Graphemes`) and `gslice` (`&[&Grapheme]`): cluster
+//! ids (`ast::CLUSTERS`), the reference segmentation (`input::GText`), the runners `kinds::run_graphemes` /
+//! `kinds::run_gslice`.
 
 pub mod ast;
 pub mod build;
